@@ -262,6 +262,22 @@ func c17Run(ctx *core.Ctx, idx int, dotu bool, steps int) core.Result {
 	freeName := func(dir string) string {
 		for {
 			n := fmt.Sprintf("new%d", r.Intn(100000))
+			// names POSIX has nothing against: leading dots (also two or three), a trailing dot, spaces, a dash first,
+			// bytes that are not UTF-8 letters
+			switch r.Intn(12) {
+			case 0:
+				n = "..data" + n
+			case 1:
+				n = "..." + n[3:]
+			case 2:
+				n = "." + n
+			case 3:
+				n = "-" + n + "."
+			case 4:
+				n = "a b\tc " + n
+			case 5:
+				n = "..2026_09_26." + n + ".tmp"
+			}
 			if _, err := os.Lstat(filepath.Join(twin, dir, n)); err != nil {
 				return n
 			}
